@@ -93,6 +93,26 @@ CLAIMED = {
         "technique": "Coq: state-machine lexer and parser automaton compositional over ++, per-line token lemmas, closure "
                      "invariant of the cleaning loop; byte-exact text correspondence; extracted-Spec oracle on real output",
     },
+    "C06": {
+        "text": "Machine-checked proofs (closed under the global context; no fuel or length bound) about an executable "
+                "Gallina model of the N-Triples reader (tokenizer with its find-based end-of-token arithmetic, token "
+                "tuning, literal typing, both line readers, error counter), with its dispatch characters, markers and "
+                "tables regenerated from the source: for every valid triple and layout of C06_dom reading the rendered "
+                "line yields exactly the kinded triple, zero error lines, no exception and no hang (C06_partial), the "
+                "same for whole documents in order (C06_document_partial), the reader always terminates "
+                "(C06_terminates), and C06_dom is exactly 'no root cause present' (C06_dom_is_no_root_cause).  Tied to "
+                "/repo by bounded-exhaustive correspondence: every lexical form of <= 3 (thorough: <= 4) symbols over "
+                "the adversarial alphabet x suffix forms x separator layouts x dot / comment variants x subjects "
+                "(quick 896 844 lines, thorough 10.4 M), every real call under SIGALRM, the abstract triple as oracle "
+                "and rdflib's parser validating the generator.",
+        "design": "DESIGN.md sections 0a, 7 (C06), 11",
+        "note": "The full property is false on the current reader: eight root causes (findings C06-F1..F8, each a Gallina "
+                "predicate with a refuted lemma and a pinned line); C06_dom excludes exactly those.  Two hangs / wrong "
+                "typings were repaired earlier (C06-X-de802c9, C06-X-569e07d); three further repairs are in "
+                "preparation.  Lexical forms are not compared (the property does not ask for them).",
+        "technique": "executable Gallina model of the reader; induction over items/characters; bounded-exhaustive "
+                     "differential correspondence; Gallina domain classifier evaluated by the model binary",
+    },
     "C07": {
         "text": "Machine-checked proofs (14 theorems, closed under the global context) about an executable Gallina model "
                 "of the streaming Turtle reader: the subject/predicate/object state machine persisted across lines "
